@@ -65,6 +65,11 @@ pub const BUILTINS: [&str; 11] = [
 /// stack inspections that never panic and never remove anything: usable as free-standing leaves
 pub const FREE_STACK_LEAVES: [&str; 5] = ["PEEK_ALL", "PEEK[..]", "PEEK[0..1]", "PEEK[-1..]", "PEEK[1..]"];
 
+/// free-standing stack operations that change the stack or panic on an empty one; a job whose
+/// unlimited parse panics is discarded, so they are safe to generate where every parse is probed
+/// first (C12/C15), and they reach what guarded stack blocks cannot: a POP whose PUSH was skipped
+pub const WILD_STACK_LEAVES: [&str; 4] = ["POP", "PEEK", "DROP", "POP_ALL"];
+
 const RANGES: [(char, char); 8] = [
     ('a', 'c'),
     ('a', 'a'),
@@ -293,6 +298,10 @@ pub struct GenCfg {
     /// `PEEK[..]*` can loop forever; they are generated only where every parse runs under a call
     /// budget (C12/C15), never for the debugger worlds of C17.
     pub free_stack_leaves: bool,
+    /// free-standing POP / PEEK / DROP and PUSH("lit") leaves (they cannot loop: POP/PEEK consume
+    /// a non-empty literal or panic, DROP shrinks the stack); jobs whose plain parse panics are
+    /// discarded
+    pub wild_stack_leaves: bool,
 }
 
 impl Default for GenCfg {
@@ -302,6 +311,7 @@ impl Default for GenCfg {
             max_depth: 4,
             stack_ops: true,
             free_stack_leaves: true,
+            wild_stack_leaves: true,
         }
     }
 }
@@ -331,7 +341,7 @@ fn gen_lit(rng: &mut Rng, comment: bool) -> String {
     s
 }
 
-fn gen_leaf(rng: &mut Rng, rule: usize, nrules: usize, comment: bool, free_stack: bool) -> Ex {
+fn gen_leaf(rng: &mut Rng, rule: usize, nrules: usize, comment: bool, free_stack: bool, wild: bool) -> Ex {
     let k = rng.below(100);
     if k < 40 {
         Ex::Str(gen_lit(rng, comment))
@@ -345,8 +355,14 @@ fn gen_leaf(rng: &mut Rng, rule: usize, nrules: usize, comment: bool, free_stack
     } else if k < 54 {
         let (lo, hi) = RANGES[if rng.chance(2, 3) { rng.below(3) } else { rng.below(RANGES.len()) }];
         Ex::Range(lo, hi)
-    } else if k < 56 && free_stack {
-        Ex::Builtin(FREE_STACK_LEAVES[rng.below(FREE_STACK_LEAVES.len())])
+    } else if k < 56 && (free_stack || wild) {
+        match rng.below(5) {
+            // POP_ALL succeeds on an empty stack without consuming: only with free_stack
+            0 if wild => Ex::Builtin(WILD_STACK_LEAVES[rng.below(if free_stack { 4 } else { 3 })]),
+            1 | 2 if wild => Ex::Push2(gen_lit(rng, false)),
+            _ if free_stack => Ex::Builtin(FREE_STACK_LEAVES[rng.below(FREE_STACK_LEAVES.len())]),
+            _ => Ex::Str(gen_lit(rng, comment)),
+        }
     } else if k < 64 {
         Ex::Builtin(BUILTINS[rng.below(BUILTINS.len())])
     } else if rule + 1 < nrules {
@@ -358,7 +374,7 @@ fn gen_leaf(rng: &mut Rng, rule: usize, nrules: usize, comment: bool, free_stack
 
 fn gen_ex(rng: &mut Rng, rule: usize, nrules: usize, depth: usize, cfg: &GenCfg, comment: bool) -> Ex {
     if depth == 0 || rng.chance(1, 4) {
-        return gen_leaf(rng, rule, nrules, comment, cfg.free_stack_leaves);
+        return gen_leaf(rng, rule, nrules, comment, cfg.free_stack_leaves, cfg.wild_stack_leaves);
     }
     let k = rng.below(100);
     let sub = |rng: &mut Rng| Box::new(gen_ex(rng, rule, nrules, depth - 1, cfg, comment));
@@ -407,12 +423,13 @@ fn gen_ex(rng: &mut Rng, rule: usize, nrules: usize, depth: usize, cfg: &GenCfg,
                         &GenCfg {
                             stack_ops: false,
                             free_stack_leaves: cfg.free_stack_leaves,
+                            wild_stack_leaves: cfg.wild_stack_leaves,
                             ..GenCfg::default()
                         },
                         comment,
                     )
                 } else {
-                    gen_leaf(rng, rule, nrules, comment, cfg.free_stack_leaves)
+                    gen_leaf(rng, rule, nrules, comment, cfg.free_stack_leaves, cfg.wild_stack_leaves)
                 }
             })
             .collect();
@@ -433,7 +450,7 @@ fn gen_ex(rng: &mut Rng, rule: usize, nrules: usize, depth: usize, cfg: &GenCfg,
         }
         Ex::StackBlock(p, mid, tail)
     } else {
-        gen_leaf(rng, rule, nrules, comment, cfg.free_stack_leaves)
+        gen_leaf(rng, rule, nrules, comment, cfg.free_stack_leaves, cfg.wild_stack_leaves)
     }
 }
 
@@ -531,6 +548,24 @@ impl Sampler<'_> {
                     }
                     for p in parts {
                         out.push_str(&p);
+                    }
+                }
+                "POP" => {
+                    if let Some(s) = self.stack.pop() {
+                        out.push_str(&s)
+                    }
+                }
+                "PEEK" => {
+                    if let Some(s) = self.stack.last() {
+                        out.push_str(&s.clone())
+                    }
+                }
+                "DROP" => {
+                    self.stack.pop();
+                }
+                "POP_ALL" => {
+                    while let Some(s) = self.stack.pop() {
+                        out.push_str(&s)
                     }
                 }
                 "PEEK[0..1]" => {
